@@ -131,6 +131,14 @@ func verifSteps() int               { return 0 }
 func verifIsSym(x any) bool         { return false }
 func verifConcretize(x int) int     { return x }
 func verifChoice(id string, n int) int { return int(verifIn(id)) }
+func verifInSet(b byte, set string) bool {
+	for i := 0; i < len(set); i++ {
+		if set[i] == b {
+			return true
+		}
+	}
+	return false
+}
 
 func verifRunOne(c *verifCaseT) (res verifResT) {
 	verifCur, verifRes, verifLastPanic = c, &res, ""
